@@ -125,6 +125,9 @@ func (g *opGen) sels(typ string, depth int, sc *scope, root bool) []*Sel {
 	if g.k["nestedlists"] {
 		out = append(out, g.nestedSels(td, depth, sc, root)...)
 	}
+	if g.k["listrequires"] {
+		out = append(out, g.listReqSels(td, depth, sc)...)
+	}
 	if len(out) == 0 {
 		out = append(out, g.field(td, &FieldDef{Name: "__typename", Type: NonNull(Named("String"))}, depth, sc))
 	}
